@@ -272,4 +272,23 @@ def sampling(tier, rng, rep):
             da, db = disks.fs_diameter(), comp.fs_diameter()
             if not np.all(np.abs(da + db - np.pi) <= 1e-6) or np.any(da <= 0) or np.any(da >= np.pi):
                 rep.fail("fs_diameter_complement", f"{da.tolist()} {db.tolist()}", inp); return
+            # the Fubini-Study centre of the complement is the antipode of the Fubini-Study centre (any disk), and a disk / its complement centred EXACTLY at the
+            # affine origin (the boundary circle's centre is the float 0.0) or at infinity has its centre at the corresponding pole
+            ca_, cb_ = np.asarray(disks.fs_center().spherical_coords(), dtype=float), np.asarray(comp.fs_center().spherical_coords(), dtype=float)
+            if not np.all(np.abs(ca_ + cb_) <= 1e-6):
+                rep.fail("fs_center_of_complement_is_antipodal", f"{ca_.tolist()} vs {cb_.tolist()}", inp); return
+            rad0 = np.array([0.5, 1.0, 2.0, 3.0])
+            D0 = cp.CP1Disk(np.zeros(4, dtype=complex), rad0.copy())
+            origin_sph = np.asarray(cp.CP1Point(np.array([1.0 + 0j, 0.0])).spherical_coords(), dtype=float)
+            inv_ = cp.CP1Transformation(np.array([[0, 1], [1, 0]], dtype=complex)) if hasattr(cp, "CP1Transformation") else None
+            variants = {"disk_at_origin": (D0, origin_sph, None), "complement_of_disk_at_origin": (D0.complement(), -origin_sph, None)}
+            for nm_, (Dv, want_c, _) in variants.items():
+                got_c = np.asarray(Dv.fs_center().spherical_coords(), dtype=float)
+                if got_c.shape != (4, 3) or not np.all(np.abs(got_c - want_c) <= 1e-6):
+                    rep.fail("fs_center_at_a_pole", f"{nm_} (radii {rad0.tolist()}): Fubini-Study centres {got_c.tolist()}, expected {want_c.tolist()} for each", {"variant": nm_}); return
+                dia_ = np.asarray(Dv.fs_diameter(), dtype=float)
+                want_d = 4 * np.arctan(rad0) if nm_ == "disk_at_origin" else 2 * np.pi - 4 * np.arctan(rad0)
+                # FS metric normalised so that the whole line has diameter pi: a disk |z| < r has FS radius arctan(r)
+                if not np.all(np.abs(dia_ - want_d / 2) <= 1e-6):
+                    rep.fail("fs_diameter_at_a_pole", f"{nm_}: {dia_.tolist()} vs {(want_d / 2).tolist()}", {"variant": nm_}); return
         rep.attempt("disk_operations_run", inp, body)
